@@ -270,6 +270,9 @@ def timeline(ex, M, ix, log):
                 for _ in range(4):
                     if isinstance(p, Ref):
                         p = ex.materialize(ex.read_path(p.cell, p.path))
+                if isinstance(p, Obj) and p.kind == 'panic_payload':
+                    # the Arc holds the Box<dyn Any> itself, not its content: downcasting the Info to the payload type fails
+                    return 'Box<dyn Any> around %s' % p.tag
                 if isinstance(p, Obj):
                     return p.d.get('tag') or p.d.get('name') or p.kind
                 return repr(p)[:40]
